@@ -1,2 +1,150 @@
-(* Properties/C02.v — property theorems only. (stub) *)
+(* Properties/C02.v — FASTQ records survive write -> read; malformed records are
+   rejected.  Only statements; every proof is [exact <lemma>].
+
+   Model: Model/Fastq.v ([write], [write_calls], [marshal_text], [decode]);
+   the reader is Base.scan_tokens (bufio.Scanner + ScanLines, no token limit)
+   followed by the four-Scan loop of reader.read().
+   Domain: Spec/FastqSpec.v ([fq_ok], [Corrupt]). *)
+From Coq Require Import String.
 From Bio Require Import Base.
+From Bio.Model Require Import Fastq.
+From Bio.Spec Require Import FastqSpec.
+From Bio.Proofs Require Import FastqProofs FastqProofsB FastqProofsC.
+
+(* MarshalText never panics (its length self-check never fires) and returns
+   exactly what Write writes: for every record, of any content and length. *)
+Theorem C02_marshal_total : forall r, marshal_text r = Ok (write r).
+Proof. exact marshal_total. Qed.
+Print Assumptions C02_marshal_total.
+
+(* Write hands the record to the io.Writer in a single call. *)
+Theorem C02_write_single_call : forall r,
+  write_calls r = [write r] /\ concat (write_calls r) = write r.
+Proof. exact write_calls_single. Qed.
+Print Assumptions C02_write_single_call.
+
+(* Each record is written as exactly four lines '@name', sequence, '+',
+   qualities: the text is those four lines each followed by LF, it contains
+   exactly four LFs, and cutting it at the LFs gives the four lines back. *)
+Theorem C02_four_lines : forall r, fq_ok r ->
+  write r = unlines [AT :: name r; seq r; [PLUS]; quals r]
+  /\ count_lf (write r) = 4%nat
+  /\ split_on LF (write r) = [AT :: name r; seq r; [PLUS]; quals r; []].
+Proof. exact four_lines_ok. Qed.
+Print Assumptions C02_four_lines.
+
+(* Round trip: any list of records of the domain (three fields free of CR/LF,
+   |sequence| = |qualities|), written one after the other and read back, yields
+   exactly the same records in order.  No hypothesis on any length: read
+   lengths 0, 64 KiB, several MiB are all instances. *)
+Theorem C02_roundtrip : forall rs, Forall fq_ok rs ->
+  decode (concat (map write rs)) TEOF = map Rec rs.
+Proof. exact roundtrip. Qed.
+Print Assumptions C02_roundtrip.
+
+(* the same when the file is assembled from MarshalText results *)
+Theorem C02_roundtrip_marshal : forall rs bs, Forall fq_ok rs ->
+  Forall2 (fun r b => marshal_text r = Ok b) rs bs ->
+  decode (concat bs) TEOF = map Rec rs.
+Proof. exact roundtrip_marshal. Qed.
+Print Assumptions C02_roundtrip_marshal.
+
+(* Corruption: if the valid records [pre] are followed by text [c] whose first
+   record lacks the leading '@', lacks the '+' line, has qualities of another
+   length than the sequence, or ends before its fourth line (Spec/FastqSpec.v
+   [Corrupt]), the reader yields exactly the preceding records and then one
+   error: no fabricated record, nothing after the error. *)
+Theorem C02_corruption : forall pre c, Forall fq_ok pre -> Corrupt c ->
+  decode (concat (map write pre) ++ c) TEOF = map Rec pre ++ [ErrItem].
+Proof. exact corruption. Qed.
+Print Assumptions C02_corruption.
+
+(* ... and the same when the stream ends with a read error instead of EOF. *)
+Theorem C02_corruption_any_term : forall t pre c, Forall fq_ok pre -> Corrupt c ->
+  decode (concat (map write pre) ++ c) t = map Rec pre ++ [ErrItem].
+Proof. exact corruption_any_term. Qed.
+Print Assumptions C02_corruption_any_term.
+
+(* Preceding valid records are delivered intact whatever follows them (valid,
+   corrupt or garbage) and however the stream ends. *)
+Theorem C02_preceding_intact : forall t pre c, Forall fq_ok pre ->
+  decode (concat (map write pre) ++ c) t = map Rec pre ++ decode c t.
+Proof. exact decode_prefix. Qed.
+Print Assumptions C02_preceding_intact.
+
+(* For every input whatsoever: records (each with |qualities| = |sequence|),
+   then at most one error item, which is the last item; a stream that ends
+   with a read error always ends with an error item. *)
+Theorem C02_items_shape : forall s t,
+  exists rs, Forall (fun r => length (quals r) = length (seq r)) rs
+    /\ (decode s t = map Rec rs ++ [ErrItem] \/ (t = TEOF /\ decode s t = map Rec rs)).
+Proof. exact decode_shape. Qed.
+Print Assumptions C02_items_shape.
+
+(* The corruption classes contain the damaged records one expects: a record of
+   the domain whose '@' is missing, whose '+' line is replaced by a line not
+   starting with '+', whose qualities have another length, or which is cut after
+   its first, second or third line. *)
+Theorem C02_corrupt_missing_at : forall r rest, fq_ok r -> ~ starts_with AT (name r) ->
+  Corrupt (name r ++ LF :: seq r ++ LF :: PLUS :: LF :: quals r ++ LF :: rest).
+Proof. exact corrupt_missing_at. Qed.
+Print Assumptions C02_corrupt_missing_at.
+
+Theorem C02_corrupt_missing_plus : forall r l3 rest, fq_ok r -> no_lf l3 -> ~ starts_with PLUS l3 ->
+  Corrupt ((AT :: name r) ++ LF :: seq r ++ LF :: l3 ++ LF :: quals r ++ LF :: rest).
+Proof. exact corrupt_missing_plus. Qed.
+Print Assumptions C02_corrupt_missing_plus.
+
+Theorem C02_corrupt_quals_length : forall nm sq ql rest,
+  field_ok nm -> field_ok sq -> field_ok ql -> length ql <> length sq ->
+  Corrupt ((AT :: nm) ++ LF :: sq ++ LF :: [PLUS] ++ LF :: ql ++ LF :: rest).
+Proof. exact corrupt_quals_length. Qed.
+Print Assumptions C02_corrupt_quals_length.
+
+Theorem C02_corrupt_cut_record : forall r k, fq_ok r -> (1 <= k <= 3)%nat ->
+  Corrupt (unlines (firstn k (record_lines r))).
+Proof. exact corrupt_cut_record. Qed.
+Print Assumptions C02_corrupt_cut_record.
+
+(* ------------------------------------------------------------------ *)
+(* Non-vacuity: the hypotheses are met by concrete, non-trivial values. *)
+
+(* three records of the domain: a name starting with '@', a sequence equal to
+   "+", qualities starting with '@' and '+', an empty read *)
+Example C02_example_domain : Forall fq_ok [ex_r1; ex_r2; ex_r3].
+Proof. exact ex_domain. Qed.
+
+Example C02_example_roundtrip :
+  concat (map write [ex_r1; ex_r2; ex_r3])
+    = bs "@@read 1/2" ++ LF :: bs "+" ++ LF :: bs "+" ++ LF :: bs "@" ++ LF ::
+      bs "@" ++ LF :: LF :: bs "+" ++ LF :: LF ::
+      bs "@r3" ++ LF :: bs "ACGT" ++ LF :: bs "+" ++ LF :: bs "+I@!" ++ [LF]
+  /\ decode (concat (map write [ex_r1; ex_r2; ex_r3])) TEOF = [Rec ex_r1; Rec ex_r2; Rec ex_r3].
+Proof. exact ex_roundtrip. Qed.
+
+(* the domain hypotheses are needed: a name ending in CR comes back without it;
+   qualities shorter than the sequence are not read back at all *)
+Example C02_example_domain_needed :
+  decode (write {| name := bs "a" ++ [CR]; seq := bs "AC"; quals := bs "II" |}) TEOF
+    = [Rec {| name := bs "a"; seq := bs "AC"; quals := bs "II" |}]
+  /\ decode (write {| name := bs "a"; seq := bs "AC"; quals := bs "I" |}) TEOF = [ErrItem].
+Proof. exact ex_domain_needed. Qed.
+
+(* one concrete text in each corruption class *)
+Example C02_example_corrupt :
+  Corrupt (bs "r2" ++ LF :: bs "AC" ++ LF :: bs "+" ++ LF :: bs "II" ++ [LF])
+  /\ Corrupt (LF :: bs "@r2" ++ LF :: bs "AC" ++ LF :: bs "+" ++ LF :: bs "II" ++ [LF])
+  /\ Corrupt (bs "@r2" ++ LF :: bs "AC" ++ LF :: bs "-" ++ LF :: bs "II" ++ [LF])
+  /\ Corrupt (bs "@r2" ++ CR :: LF :: bs "AC" ++ CR :: LF :: bs "+" ++ CR :: LF :: bs "III" ++ CR :: [LF])
+  /\ Corrupt (bs "@r2" ++ LF :: bs "AC")
+  /\ Corrupt (bs "@r2" ++ LF :: bs "AC" ++ LF :: bs "+" ++ [LF]).
+Proof.
+  exact (conj ex_corrupt_no_at (conj ex_corrupt_blank_line (conj ex_corrupt_no_plus
+        (conj ex_corrupt_length_crlf ex_corrupt_cut)))).
+Qed.
+
+Example C02_example_corruption_run :
+  decode (concat (map write [ex_r1; ex_r3])
+          ++ bs "@r2" ++ LF :: bs "AC" ++ LF :: bs "+" ++ LF :: bs "III" ++ LF :: write ex_r3) TEOF
+  = [Rec ex_r1; Rec ex_r3; ErrItem].
+Proof. exact ex_corruption_run. Qed.
